@@ -557,6 +557,10 @@ pub struct Context {
 	pub fee: Option<FeeFields>,
 	/// Payment proof sender address derivation path, if needed
 	pub payment_proof_derivation_index: Option<u32>,
+	/// The recipient a payment proof was requested from at initiation, if any: what the
+	/// proof in the reply is checked against (absent in contexts stored by earlier versions)
+	#[serde(with = "dalek_ser::option_dalek_pubkey_serde", default)]
+	pub payment_proof_recipient: Option<DalekPublicKey>,
 	/// If late-locking, store my tranasction creation prefs
 	/// for later
 	pub late_lock_args: Option<InitTxArgs>,
@@ -610,6 +614,7 @@ impl Context {
 			amount: 0,
 			fee: None,
 			payment_proof_derivation_index: None,
+			payment_proof_recipient: None,
 			late_lock_args: None,
 			calculated_excess: None,
 		}
